@@ -18,9 +18,10 @@ except ImageD11.ImageD11_thread (pure python, no compiled code, needed for the f
 """
 import os, sys, json, time, io
 
-T_STEP = 2.5          # seconds a child may take for a non-import step before it is called stuck
+T_STEP = 1.0          # seconds after which a silent child is examined (see `asleep`)
+T_MAX = 20.0          # a child that is still running (not asleep) gets this long
 T_IMPORT = 60.0       # import of numba + the compiled module in a child (cold caches, busy box)
-T_NBKERNEL = 12.0     # array_bin + array_lt are compiled by numba on their first call (about 2 s)
+T_NBKERNEL = 4.0      # array_bin + array_lt are compiled by numba on their first call (about 2 s, busy cpu: not asleep)
 FORK_WARNING = "forkserver or spawn"
 
 
@@ -91,11 +92,21 @@ def run_kernels():
     ret = np.full(msk.shape, 5, dtype=np.int8)
     npx = c.clean_mask(msk, ret)
     acc = np.zeros(16, dtype=np.float32)
-    c.put_incr(acc, ind, vals)
+    # the dispatch of put_incr (cImageD11.py:118-132): which compiled routine does it reach?
+    route = []
+    real = {}
+    for nm in ("put_incr64", "put_incr32"):
+        real[nm] = getattr(c, nm)
+        setattr(c, nm, (lambda f, n: (lambda *a, **k: (route.append(n), f(*a, **k))[1]))(real[nm], nm))
+    try:
+        c.put_incr(acc, ind, vals)
+    finally:
+        for nm in real:
+            setattr(c, nm, real[nm])
     return {"k1": int((cor.astype(np.int64) * (i % 17 + 1)).sum()),
             "k2n": int(npx),
             "k2": int((ret.astype(np.int64).ravel() * (i % 19 + 1)).sum()),
-            "pi": [int(x) for x in acc]}
+            "pi": [int(x) for x in acc], "pi_route": ",".join(route)}
 
 
 def run_numba_kernels():
@@ -216,6 +227,8 @@ def do_op(op):
                     ret = user_do_index(bool(op[3]))
                 else:
                     raise ValueError("unknown user %r" % (op[2],))
+            elif name == "pbp":
+                import ImageD11.sinograms.point_by_point
             elif name == "stopset":
                 import ImageD11.ImageD11_thread as it
                 it.stop_now = True
@@ -232,6 +245,33 @@ def do_op(op):
 
 # ------------------------------------------------------------------------------------------------
 # the child
+
+def _task_stats(pid):
+    """[(state, cpu ticks)] of every thread of pid"""
+    out = []
+    d = "/proc/%d/task" % pid
+    for t in os.listdir(d):
+        try:
+            with open("%s/%s/stat" % (d, t)) as f:
+                s = f.read()
+        except OSError:
+            continue
+        rest = s[s.rindex(")") + 2:].split()
+        out.append((rest[0], int(rest[11]) + int(rest[12])))
+    return sorted(out)
+
+
+def asleep(pid, dt=0.3):
+    """True when every thread of pid sleeps and none used cpu time during dt: the process is not slow, it waits
+    (a hung OpenMP team waits on a futex; OMP_WAIT_POLICY=passive)"""
+    try:
+        a = _task_stats(pid)
+        time.sleep(dt)
+        b = _task_stats(pid)
+    except OSError:
+        return False
+    return a == b and all(st == "S" for st, _ in b)
+
 
 def child_main(conn):
     try:
@@ -324,7 +364,7 @@ def main():
     job = json.load(open(sys.argv[1]))
     env = job["env"]
     long_wait = bool(job.get("long_wait"))
-    t_step = 20.0 if long_wait else T_STEP
+    t_step = T_STEP
     # cpu affinity = what cores_available and the OpenMP runtime see
     allowed = sorted(os.sched_getaffinity(0))
     k = int(env["cores"])
@@ -346,8 +386,17 @@ def main():
         """send op to the child; -> reply dict or None (stuck / dead: child['state'] updated)"""
         try:
             child["conn"].send(op)
-            if child["conn"].poll(tmo):
-                return child["conn"].recv()
+            t0 = time.time()
+            while True:
+                if child["conn"].poll(min(tmo, T_STEP)):
+                    return child["conn"].recv()
+                if not child["proc"].is_alive():
+                    break
+                waited = time.time() - t0
+                if waited >= max(tmo, T_MAX):
+                    break
+                if waited >= tmo - 1e-3 and not long_wait and asleep(child["proc"].pid):
+                    break
         except (EOFError, OSError, BrokenPipeError):
             child["proc"].join(5)
             child["state"] = "dead"
@@ -404,7 +453,7 @@ def main():
                 if child["state"] != "alive":
                     r = {"ret": "exc:NoChild", "nwarn": 0, "otherwarn": []}
                 else:
-                    rr = child_call(op, T_IMPORT if name in ("import", "user") else
+                    rr = child_call(op, T_IMPORT if name in ("import", "user", "pbp") else
                                     (T_NBKERNEL if name == "nbkernel" else t_step))
                     if rr is None:
                         r = {"ret": child["state"], "nwarn": 0, "otherwarn": []}
